@@ -30,6 +30,14 @@ def op_gen(P, I, ctx, subj, op, env):
         ne = len(ctx.events); t_start = ctx.steps
         r = yield from call_subject_gen(I, ctx, subj, op[1])
         return dict(op='call', args=op[1], ret=r, execs=[e for e in ctx.events[ne:] if e[0] == 'exec' and e[1] == ctx.tid], t_start=t_start, t_end=ctx.steps)
+    if kind == 'call_first':
+        # the first ever call of ANOTHER cached function (its expansion registers itself with the registries on the way)
+        other = wrap.Subject(P, op[1]); ne = len(ctx.events); me = ctx.tid
+        if not hasattr(ctx, 'nolog'): ctx.nolog = set()
+        ctx.nolog.add(me)                     # the cache-method log is about the subject under test
+        try: r = yield from call_subject_gen(I, ctx, other, [424242] * len(other.rec['args']))
+        finally: ctx.nolog.discard(me)
+        return dict(op='call_first', ret=r, execs=[e for e in ctx.events[ne:] if e[0] == 'exec' and e[1] == ctx.tid])
     name = subj.rec['intended']['cache_name']
     if kind == 'inv_with':
         f = P.resolve('invalidation::invalidate_with')
@@ -147,7 +155,7 @@ def run(P, item):
                         if len(clk) >= 2:
                             span = ev(clk[-1]) - ev(clk[0])
                             if isinstance(span, int) and span >= (ttl_ if A_ else ttl_ * 1000000000): sleep_ms = min(ttl_, 5) * 1000 + 150
-                    w = dict(sleep_ms=sleep_ms, subject=name, progs=progs_spec, nfill=nfill, deadlock=str(o.res), sched=list(ctx.sched_trace), locks=[[str(x) for x in e] for e in locks],
+                    w = dict(sleep_ms=sleep_ms, subject=name, progs=progs_spec, nfill=nfill, deadlock=str(o.res), attempts=[list(b) for b in ctx.blocked], sched=list(ctx.sched_trace), locks=[[str(x) for x in e] for e in locks],
                              fills=[[ev(x) for x in t] for t in stash['fills']], fresh=[[ev(x) for x in v] for k, v in stash['fresh']], fresh_keys=[list(k) for k, v in stash['fresh']],
                              pred=[(cn, render_key(k, ev), ev(b)) for cn, k, b in stash['env']['pred'].memo])
                 if 'C17' in props: res['failed'].append(dict(prop='C17', clause='no interleaving leaves every unfinished caller blocked', kind='conc', msg=str(o.res), cfg=f"CONC/{name}", op=_progs_str(progs_spec), witness=w))
